@@ -26,6 +26,7 @@ EXPLANATION = (
     "count a type's docstring announces equals what its decoder consumes (R4). Numeric equality on all register contents is a value "
     "level question and is not decided."
     ' (R0) trim_response must cut by constants (a bound computed from unchecked response bytes is a violation); (R2 sensor-read) path rule: nothing touches the buffer between seek(self.offset) and read_value; (R3 cursor) only ProtocolResponse.seek / read move the payload cursor.'
+    ' (R5, shared with C20.R1) no code assigns an attribute of a shared sensor definition from outside.'
 )
 
 GROUP_BASES = ("EcoModeV1", "Schedule")
@@ -77,6 +78,16 @@ def check(ctx: Ctx, rep: Report):
     rep.rule("C12.R1", "decoder summary of every sensor type equals the documented interpretation (bytes, big-endian, signedness, sentinels, scale)", 30)
     rep.rule("C12.R2", "every table row reads only bytes at its own register(s) on the bulk path", 480)
     rep.rule("C12.R3", "address -> position map: 2 x (address - first) for Modbus, identity for AA55; seek/trim go through the command", 5)
+    rep.rule("C12.R5", "the interpretation of a table row is fixed: no code assigns an attribute (scale, offset, size_ ...) of a sensor definition from outside, and the definition classes do not store to themselves when reading (shared with C20.R1)", 1)
+    from .c20 import check as _c20_check
+    _sub = Report("C20", rep.tier)
+    _c20_check(ctx, _sub)
+    _n5 = 0
+    for o in _sub.obligations:
+        if o.rule == "C20.R1" and o.key.startswith("external-store:") and o.status != "OK":
+            _n5 += 1
+            rep.obligations.append(type(o)("C12.R5", o.key, o.where, o.what, o.status, o.detail))
+    rep.ok("C12.R5", "row-attributes:scan", "goodwe/", "no assignment to an attribute of a shared sensor definition from the inverter classes (%d found)" % _n5)
     rep.rule("C12.R4", "the byte count announced by the type's docstring equals the bytes its decoder consumes", 25)
     prog = ctx.prog
     tabs, dec = tables_ctx(ctx), decoders_ctx(ctx)
